@@ -457,6 +457,20 @@ where
         }
     }
 
+    fn pre_reorder(&self, _manager: &M) {
+        // Results may depend on the levels of the diagram (e.g., the number of
+        // levels in case of ZBDDs), so no entry must survive a reordering or
+        // an addition of levels. In case of a reordering, `pre_gc()` has
+        // already cleared and locked all entries, so there is nothing left to
+        // do for the entries we cannot lock. Additions of levels are not
+        // wrapped in a `pre_gc()` / `post_gc()` pair, though.
+        for entry in &*self.0 {
+            if let Some(mut entry) = entry.try_lock() {
+                entry.clear();
+            }
+        }
+    }
+
     unsafe fn post_gc(&self, _manager: &M) {
         for entry in &*self.0 {
             // SAFETY: `post_gc()` is called at most once after `pre_gc()` and
